@@ -84,7 +84,7 @@ def mode_sig(data, got, ex, tag=''):
     return 'mode-wrong data=%s%s' % (data, tag)
 
 
-class Watchdog(BaseException):
+class Watchdog(KeyboardInterrupt):      # asyncio re-raises KeyboardInterrupt out of the loop (other BaseExceptions are swallowed)
     pass
 
 
@@ -109,7 +109,7 @@ def multi_party(ctx):
     def make_prog(stname):
         async def prog(mpc, mods, pid):
             ms = mods['mpyc.statistics']
-            st = mpc.SecInt(32) if stname == 'secint' else mpc.SecFxp(48, FX)
+            st = mpc.SecInt(32) if stname == 'secint' else mpc.SecFxp(32, FX)
             out = []
             for d in sets:
                 x = mpc.input([st(a) for a in d], senders=0)
@@ -142,7 +142,7 @@ def multi_party(ctx):
             cfg = 'm=3 t=1 %s %s' % ('no-prss' if no_prss else 'prss', stname)
             sim = Sim(3, 1, no_prss=no_prss, seed=ctx.seed * 31 + 5, log_messages=False, track_tasks=False)
             res = None
-            signal.setitimer(signal.ITIMER_REAL, 90)
+            signal.setitimer(signal.ITIMER_REAL, 90, 5)
             try:
                 sim.start()
                 res = sim.run(make_prog(stname), TimeLimited(Fifo(), 60), idle_limit=400) if sim.started else None
@@ -150,6 +150,7 @@ def multi_party(ctx):
                     sim.shutdown()
             except Watchdog:
                 res = None
+                ctx.extra['sim_aborted'] = True
             finally:
                 signal.setitimer(signal.ITIMER_REAL, 0)
                 try:
@@ -201,6 +202,11 @@ def run(ctx):
     ok = ctx.build(['MPyC.Stats']) and ctx.check_props()
     multi_party(ctx)           # first: the simulator loads and unloads its own copies of the package
     ctx.log('simulator part done')
+    if ctx.extra.get('sim_aborted'):
+        # a party was stuck in a computation and had to be interrupted by the watchdog (already reported as a violation);
+        # the interpreter's asyncio state is not reliable after that, so stop here
+        ctx.log('simulator run was aborted by the watchdog; skipping the single-party part')
+        return
     sys.argv = [sys.argv[0], '--no-log']
     from mpyc.runtime import mpc
     import mpyc.random as mr
@@ -271,7 +277,7 @@ def run(ctx):
         def on_alarm(signum, frame):
             raise Watchdog()
         old = signal.signal(signal.SIGALRM, on_alarm)
-        signal.setitimer(signal.ITIMER_REAL, seconds)
+        signal.setitimer(signal.ITIMER_REAL, seconds, 5)
         try:
             return fn()
         except Watchdog:
@@ -465,7 +471,8 @@ def run(ctx):
     for d in [[3, 3, 1, 1], [2, 2, 5], [4], [1, 0, 1, 0, 1], [7, 7, 6, 6, 6]] + widish + [[rng.randrange(0, 6) for _ in range(rng.randrange(1, 8))] for _ in range(ctx.n(10, 60))]:
         got = guarded(lambda: mpc.run(mpc.output(ms.mode([secfxp(a) for a in d]))), 'mode secfxp data=%s' % d)
         if got is None:
-            continue
+            ctx.log('a statistics call had to be interrupted by the watchdog; stopping the check')
+            return
         ex = statistics.mode(d)
         ctx.case({'st': 'secfxp', 'fn': 'mode', 'data': d}, kind='mode/secfxp')
         cnt = {a: d.count(a) for a in d}
@@ -484,10 +491,13 @@ def run(ctx):
         for stname, st, LBW in (('secint', secint32, 32), ('secfxp', secfxpw, 32)):
             key0 = {'st': stname + '-wide', 'data': d, 'range': R}
             xs = lambda: [st(a) for a in d]   # noqa: E731
-            if R < 4096 or stname == 'secfxp' or ctx.tier == 'thorough':     # 2^13 bins: one type only in the quick tier
+            if (R < 4096 or stname == 'secfxp' or ctx.tier == 'thorough') and not ctx.extra.get('mode_stuck'):
+                # (2^13 bins: one type only in the quick tier)
                 got = guarded(lambda: mpc.run(mpc.output(ms.mode(xs()))), 'mode %s-wide data=%s' % (stname, d))
                 if got is None:
-                    break
+                    # reported as a violation; the interrupted runtime is not reliable any more: stop here
+                    ctx.log('a statistics call had to be interrupted by the watchdog; stopping the check')
+                    return
                 ex = statistics.mode(d)
                 ctx.case(dict(key0, fn='mode'), kind='mode/%s-wide' % stname)
                 if got != ex:
